@@ -21,6 +21,18 @@ func runC14(c *Ctx, r *Report) {
 	c.checkSaveIsGlobal(r, "C14.R9")
 	r.Rule("C14.R10", "a saved line binds the name it is saved for: under SaveGlobals a line without `name=` (the definition form of a named function) is written only where the key was compared with the function's own name")
 	c.checkNamedFormOnlyForOwnName(r, "C14.R10")
+	r.Rule("C14.R11", "printing a number does not overflow it: every float -> integer conversion in package object (the Inspect / JSON printers of values) is dominated by -2^63 <= f < 2^63 with a strict upper bound")
+	{
+		var fns []*ssa.Function
+		for _, fn := range c.ModuleSSAFuncs() {
+			if fn.Pkg != nil && shortPkg(fn.Pkg.Pkg) == "object" {
+				fns = append(fns, fn)
+			}
+		}
+		if n := c.checkFloatToIntGuards(r, "C14.R11", fns, "the printed integer digits are those of the overflowed conversion (2^63 is written as -9223372036854775808) and the value reloads with the wrong sign"); n == 0 {
+			r.OkWhy("C14.R11", "object", "no float -> integer conversion in the value printers", "", "floats are printed by strconv.FormatFloat")
+		}
+	}
 	r.Rule("C14.R7", "auto-save sees every change: every write or delete on an Environment's store map (other than installing a Reference) is accompanied, on every path through it, by an increment of numSet of the same environment under its depth==0 test")
 	c.checkChangeCounter(r, "C14.R7")
 
